@@ -2,6 +2,7 @@
 #pragma once
 #include "model.hpp"
 #include "gen.hpp"
+#include "faultenum.hpp"
 
 enum OpK { O_CifCreate, O_CifDestroy, O_BlockCreate, O_BlockGet, O_BlocksAll, O_FrameCreate, O_FrameGet, O_FramesAll,
     O_ContDestroy, O_ContCode, O_LoopCreate, O_LoopByCat, O_LoopByItem, O_LoopsAll, O_Prune, O_GetValue, O_SetValue, O_RemoveItem,
@@ -164,7 +165,7 @@ template <class F> int ApiRun::api(const char *fn, F f, int flags) {
             ++enum_steps;
             bool do_dump = (k <= 3) || ((k & (k - 1)) == 0) || (!cfg.quick && (k % 8 == 0));
             enum_check_failed_attempt(fn, rc, k, sq, do_dump);
-            if (cfg.quick && k > 8) k += 1 + (long) skip.below(4); else ++k;
+            k = next_k(k, cfg.quick, skip);
         }
         violate("enumeration", fn, "more than 100000 allocation sites in one call");
     }
